@@ -701,3 +701,56 @@ func zzC02dClearOwn() {
 	vf.Assert("other-stream-kept", err == nil && len(oth) == 1 && len(oth[oseq]) == 1)
 	vf.Reach("end")
 }
+
+// C01.c2: two accept steps with caller-owned slices that have spare capacity: the library must not
+// write into the caller's memory, and what it buffers must stay what was written even when the
+// caller goes on using its slice.
+func zzC01c2CallerSlices() {
+	w := zzNewWorld(message.QoSReliable, &flushPolicyNone{}, newInmemSentStorage())
+	u := w.u
+	ctx, cancel := context.WithCancel(context.Background())
+	defer cancel()
+	go u.flushLoop(ctx)
+	idA, idB := zzDataID("A"), zzDataID("B")
+	vf.Assume(*idA != *idB)
+	p1, p2, p3 := zzPoints("p1", 1)[0], zzPoints("p2", 1)[0], zzPoints("p3", 1)[0]
+	batch := make([]*message.DataPoint, 2, 4)
+	batch[0], batch[1] = p1, p2
+	k := 1 + vf.Choose("first.len", 2) // first write passes batch[:k]
+	e1 := u.WriteDataPoints(context.Background(), idA, batch[:k]...)
+	vf.Settle()
+	e2 := u.WriteDataPoints(context.Background(), idA, p3)
+	vf.Settle()
+	vf.Assert("writes-accepted", e1 == nil && e2 == nil)
+	vf.Assert("caller-memory-untouched", batch[0] == p1 && batch[1] == p2 && len(batch) == 2)
+	full := batch[:4]
+	vf.Assert("caller-spare-capacity-untouched", full[2] == nil && full[3] == nil)
+	// the caller reuses its slice afterwards
+	e3 := u.WriteDataPoints(context.Background(), idB, batch[k:]...)
+	batch[0] = nil
+	vf.Settle()
+	vf.Assert("third-write-accepted", e3 == nil)
+	gotA, gotB := u.sendBuffer[*idA], u.sendBuffer[*idB]
+	if k == 1 {
+		vf.Assert("buffered-exactly-what-was-written", len(gotA) == 2 && gotA[0] == p1 && gotA[1] == p3 && len(gotB) == 1 && gotB[0] == p2)
+	} else {
+		vf.Assert("buffered-exactly-what-was-written", len(gotA) == 3 && gotA[0] == p1 && gotA[1] == p2 && gotA[2] == p3 && len(gotB) == 0)
+	}
+	// and the cut chunk carries exactly that
+	ferr := u.Flush(context.Background())
+	vf.Settle()
+	vf.Assert("flush-ok", ferr == nil)
+	cs := w.chunks()
+	vf.Assert("one-chunk", len(cs) == 1)
+	if len(cs) == 1 {
+		n := 0
+		for _, g := range cs[0].StreamChunk.DataPointGroups {
+			for _, p := range g.DataPoints {
+				vf.Assert("chunk-has-no-nil-or-foreign-point", p == p1 || p == p2 || p == p3)
+				n++
+			}
+		}
+		vf.Assert("chunk-point-total", n == 3)
+	}
+	vf.Reach("end")
+}
